@@ -200,78 +200,15 @@ def stepLines (before : D) (a : Acc) : List (List String) :=
     else none
   calls ++ procs ++ rets ++ ths
 
-/-- one scheduler step of thread `t` (the harness's `step`) -/
-def doStep (pref : List Wit) (d : D) (t : Tid) (tick : Bool) : D × List (List String) :=
-  if finished d t || d.pend.contains t || contention d t then (d, [["th", tidName t, "skip"]])
-  else if t == .cons && !tick && heldEmpty d then (d, [["th", "cons", "skip-empty"]])
-  else
-    let a := autoLoop pref 64 (release pref { d := d } t)
-    (a.d, stepLines d a)
+def heldLen (d : D) : String :=
+  match d.s.cons with
+  | .cHold h => match d.s.chans[h]? with
+    | some ch => toString ch.buf.length
+    | none => "-"
+  | _ => "-"
 
 def stLine (d : D) : List String :=
-  ["st", toString d.s.input, toString d.s.dropped.length, toString (curLen d.s), toString (curCap d.s)]
-
-def steppable (d : D) (t : Tid) : Bool :=
-  !(finished d t) && !d.pend.contains t && !contention d t && !(t == .cons && heldEmpty d)
-
-def runLoop (pref : List Wit) (t : Tid) (point : String) : Nat → D → List (List String) → D × List (List String)
-  | 0, d, acc => (d, acc)
-  | n + 1, d, acc =>
-    if pointOf d t == point || !steppable d t then (d, acc)
-    else
-      let (d', ls) := doStep pref d t false
-      runLoop pref t point n d' (acc ++ ls)
-
-def qOrder (d : D) : List Tid := (List.range d.nprod).map Tid.prod ++ [.cons]
-
-/-- one step of the quiescing policy: round-robin over producers and consumer -/
-def doQ (pref : List Wit) (d : D) : D × List (List String) :=
-  let order := qOrder d
-  let n := order.length
-  let pick := (List.range n).findSome? fun k =>
-    let idx := (d.rr + k) % n
-    match order[idx]? with
-    | some t => if steppable d t then some (idx, t) else none
-    | none => none
-  match pick with
-  | some (idx, t) =>
-    let (d', ls) := doStep pref d t false
-    ({ d' with rr := idx + 1 }, ls)
-  | none =>
-    if !(finished d .cons) && !d.pend.contains .cons && heldEmpty d && decide (0 < curLen d.s) then
-      doStep pref d .cons true
-    else (d, [["idle"]])
-
-def statsSafe (d : D) : Bool := !(wHeld d.s) && !(writerPending d)
-
-def allRet (d : D) : Bool := d.s.prods.all (fun p => p.cur.isNone)
-
-def doOp (pref : List Wit) (d : D) (op : List String) : D × List (List String) :=
-  match op with
-  | ["step", t] =>
-    match parseTid t with
-    | some t =>
-      let (d', ls) := doStep pref d t false
-      ({ d' with stopUsed := d'.stopUsed || t == .stop }, ls ++ [stLine d'])
-    | none => (d, [["bad-op"]])
-  | ["tick"] =>
-    let (d', ls) := doStep pref d .cons true
-    (d', ls ++ [stLine d'])
-  | ["run", t, point, mx] =>
-    match parseTid t, parseNat mx with
-    | some t, some mx =>
-      let (d', ls) := runLoop pref t point mx d []
-      (d', ls ++ [stLine d'])
-    | _, _ => (d, [["bad-op"]])
-  | ["q"] =>
-    let (d', ls) := doQ pref d
-    (d', ls ++ [stLine d'])
-  | ["stats"] =>
-    if statsSafe d then
-      (d, [["stats", toString d.s.input, toString d.s.dropped.length, toString (curLen d.s), toString (curCap d.s),
-            boolTok (allRet d)]])
-    else (d, [["stats", "unsafe"]])
-  | _ => (d, [["bad-op"]])
+  ["st", toString d.s.input, toString d.s.dropped.length, toString (curLen d.s), toString (curCap d.s), heldLen d]
 
 def prefs : List (List Wit) :=
   [[.send, .recv, .done, .timer, .tick],
@@ -282,11 +219,89 @@ def prefs : List (List Wit) :=
 
 def defaultPref : List Wit := [.send, .recv, .done, .timer, .tick]
 
-/-- evaluate under each preference; take the first that reproduces the implementation's lines -/
-def doOpW (d : D) (op : List String) (impl : List (List String)) : D × List (List String) :=
-  match prefs.findSome? (fun pref => let r := doOp pref d op; if r.2 == impl then some r else none) with
+def isPrefixOf (a b : List (List String)) : Bool := a == b.take a.length
+
+/-- one scheduler step of thread `t` under one witness preference -/
+def doStepP (pref : List Wit) (d : D) (t : Tid) (tick : Bool) : D × List (List String) :=
+  if finished d t || d.pend.contains t || contention d t then (d, [["th", tidName t, "skip"], stLine d])
+  else if t == .cons && !tick && heldEmpty d then (d, [["th", "cons", "skip-empty"], stLine d])
+  else
+    let a := autoLoop pref 64 (release pref { d := d } t)
+    (a.d, stepLines d a ++ [stLine a.d])
+
+/-- one scheduler step (the harness's `doStep`): the witness preference is the first one whose
+lines are what the implementation printed next; `rest` = the implementation's remaining lines -/
+def doStep (d : D) (t : Tid) (tick : Bool) (rest : List (List String)) : D × List (List String) :=
+  match prefs.findSome? (fun pref => let r := doStepP pref d t tick; if isPrefixOf r.2 rest then some r else none) with
   | some r => r
-  | none => doOp defaultPref d op
+  | none => doStepP defaultPref d t tick
+
+def steppable (d : D) (t : Tid) : Bool :=
+  !(finished d t) && !d.pend.contains t && !contention d t && !(t == .cons && heldEmpty d)
+
+def runLoop (t : Tid) (point : String) : Nat → D → List (List String) → List (List String) → D × List (List String)
+  | 0, d, acc, _ => (d, acc)
+  | n + 1, d, acc, rest =>
+    if pointOf d t == point || !steppable d t then (d, acc)
+    else
+      let (d', ls) := doStep d t false rest
+      runLoop t point n d' (acc ++ ls) (rest.drop ls.length)
+
+def qOrder (d : D) : List Tid := (List.range d.nprod).map Tid.prod ++ [.cons]
+
+/-- one step of the quiescing policy: round-robin over producers and consumer -/
+def doQ (d : D) (rest : List (List String)) : D × List (List String) :=
+  let order := qOrder d
+  let n := order.length
+  let pick := (List.range n).findSome? fun k =>
+    let idx := (d.rr + k) % n
+    match order[idx]? with
+    | some t => if steppable d t then some (idx, t) else none
+    | none => none
+  match pick with
+  | some (idx, t) =>
+    let (d', ls) := doStep d t false rest
+    ({ d' with rr := idx + 1 }, ls)
+  | none =>
+    if !(finished d .cons) && !d.pend.contains .cons && heldEmpty d && decide (0 < curLen d.s) then
+      doStep d .cons true rest
+    else (d, [["idle"]])
+
+/-- `q n`: up to `n` steps of the policy, stopping at the first idle round -/
+def qLoop : Nat → D → List (List String) → List (List String) → D × List (List String)
+  | 0, d, acc, _ => (d, acc)
+  | n + 1, d, acc, rest =>
+    let (d', ls) := doQ d rest
+    if ls == [["idle"]] then (d', acc ++ ls) else qLoop n d' (acc ++ ls) (rest.drop ls.length)
+
+def statsSafe (d : D) : Bool := !(wHeld d.s) && !(writerPending d)
+
+def allRet (d : D) : Bool := d.s.prods.all (fun p => p.cur.isNone)
+
+/-- one op; `impl` = the lines the implementation printed for it -/
+def doOpW (d : D) (op : List String) (impl : List (List String)) : D × List (List String) :=
+  match op with
+  | ["step", t] =>
+    match parseTid t with
+    | some t =>
+      let (d', ls) := doStep d t false impl
+      ({ d' with stopUsed := d'.stopUsed || t == .stop }, ls)
+    | none => (d, [["bad-op"]])
+  | ["tick"] =>
+    doStep d .cons true impl
+  | ["run", t, point, mx] =>
+    match parseTid t, parseNat mx with
+    | some t, some mx =>
+      runLoop t point mx d [] impl
+    | _, _ => (d, [["bad-op"]])
+  | ["q", n] =>
+    qLoop ((parseNat n).getD 0) d [] impl
+  | ["stats"] =>
+    if statsSafe d then
+      (d, [["stats", toString d.s.input, toString d.s.dropped.length, toString (curLen d.s), toString (curCap d.s),
+            boolTok (allRet d)]])
+    else (d, [["stats", "unsafe"]])
+  | _ => (d, [["bad-op"]])
 
 def initD (c : Case) : D :=
   let cfg := mkCfg c
